@@ -43,6 +43,11 @@ impl vstd::std_specs::cmp::PartialOrdSpecImpl for Duration {
     open spec fn partial_cmp_spec(&self, o: &Duration) -> Option<core::cmp::Ordering> { dur_cmp(*self, *o) }
 }
 
+/// borrowed forms a `HashMap<Cow<str>, _>` can be looked up by (std: `K: Borrow<Q>`): `&str` and `&Cow<str>` itself
+pub trait KeyLike { spec fn key_text(&self) -> Seq<char>; }
+impl KeyLike for str { open spec fn key_text(&self) -> Seq<char> { self@ } }
+impl KeyLike for CowStr { open spec fn key_text(&self) -> Seq<char> { self@ } }
+
 // ---- HashMap<CowStr, V> (std::collections::HashMap keyed by string content) --------------
 #[verifier::external_body]
 #[verifier::accept_recursive_types(K)]
@@ -56,8 +61,8 @@ impl<V> HashMap<CowStr, V> {
     #[verifier::external_body]
     pub fn is_empty(&self) -> (r: bool) ensures r == (self@ == Map::<Seq<char>, V>::empty()) { unimplemented!() }
     #[verifier::external_body]
-    pub fn get(&self, k: &str) -> (r: Option<&V>)
-        ensures match r { Some(v) => self@.contains_key(k@) && self@[k@] == *v, None => !self@.contains_key(k@) }
+    pub fn get<Q: KeyLike + ?Sized>(&self, k: &Q) -> (r: Option<&V>)
+        ensures match r { Some(v) => self@.contains_key(k.key_text()) && self@[k.key_text()] == *v, None => !self@.contains_key(k.key_text()) }
     { unimplemented!() }
     #[verifier::external_body]
     pub fn insert(&mut self, k: CowStr, v: V) -> (r: Option<V>)
@@ -65,13 +70,26 @@ impl<V> HashMap<CowStr, V> {
             match r { Some(o) => old(self)@.contains_key(k@) && old(self)@[k@] == o, None => !old(self)@.contains_key(k@) }
     { unimplemented!() }
     #[verifier::external_body]
-    pub fn remove(&mut self, k: &str) -> (r: Option<V>)
-        ensures final(self)@ == old(self)@.remove(k@),
-            match r { Some(o) => old(self)@.contains_key(k@) && old(self)@[k@] == o, None => !old(self)@.contains_key(k@) }
+    pub fn remove<Q: KeyLike + ?Sized>(&mut self, k: &Q) -> (r: Option<V>)
+        ensures final(self)@ == old(self)@.remove(k.key_text()),
+            match r { Some(o) => old(self)@.contains_key(k.key_text()) && old(self)@[k.key_text()] == o, None => !old(self)@.contains_key(k.key_text()) }
     { unimplemented!() }
     #[verifier::external_body]
     pub fn clear(&mut self) ensures final(self)@ == Map::<Seq<char>, V>::empty() { unimplemented!() }
+    #[verifier::external_body]
+    pub fn get_mut<Q: KeyLike + ?Sized>(&mut self, k: &Q) -> (r: Option<&mut V>)
+        ensures match r {
+            Some(v) => old(self)@.contains_key(k.key_text()) && *v == old(self)@[k.key_text()] && final(self)@ == old(self)@.insert(k.key_text(), *final(v)),
+            None => !old(self)@.contains_key(k.key_text()) && final(self)@ == old(self)@,
+        }
+    { unimplemented!() }
+    #[verifier::external_body]
+    pub fn contains_key<Q: KeyLike + ?Sized>(&self, k: &Q) -> (r: bool) ensures r == self@.contains_key(k.key_text()) { unimplemented!() }
+    #[verifier::external_body]
+    pub fn len(&self) -> (r: usize) ensures (r == 0) == (self@ == Map::<Seq<char>, V>::empty()) { unimplemented!() }
 }
+/// std::mem::replace
+pub assume_specification<T>[std::mem::replace::<T>](dest: &mut T, src: T) -> (r: T) ensures r == *old(dest), *final(dest) == src;
 impl<V> Default for HashMap<CowStr, V> {
     #[verifier::external_body]
     fn default() -> (r: Self) ensures r@ == Map::<Seq<char>, V>::empty() { unimplemented!() }
@@ -323,4 +341,29 @@ impl<'a> Cow<'a, HashMap<CowStr, Value>> {
     /// std: clones if borrowed
     #[verifier::external_body]
     pub fn into_owned(self) -> (r: HashMap<CowStr, Value>) ensures r@ == cow_val(self)@ { unimplemented!() }
+}
+
+// ---- the response side (finalize_session middleware) -----------------------------------------------
+#[verifier::external_body] pub struct Response { _p: u8 }
+#[verifier::external_body] pub struct ResponseCookies { _p: u8 }
+#[verifier::external_body] pub struct Processor { _p: u8 }
+pub uninterp spec fn cookies_view(c: &ResponseCookies) -> Seq<ResponseCookie<'static>>;
+/// biscotti::Processor: whether the crypto rules will encrypt / sign a cookie is a pure function of its name
+pub uninterp spec fn will_encrypt(p: &Processor, name: Seq<char>) -> bool;
+pub uninterp spec fn will_sign(p: &Processor, name: Seq<char>) -> bool;
+impl<'a> ResponseCookie<'a> {
+    pub fn name(&self) -> (r: &str) ensures r@ == self.name@ { self.name.as_str() }
+}
+impl Processor {
+    #[verifier::external_body]
+    pub fn will_encrypt(&self, name: &str) -> (r: bool) ensures r == will_encrypt(self, name@) { unimplemented!() }
+    #[verifier::external_body]
+    pub fn will_sign(&self, name: &str) -> (r: bool) ensures r == will_sign(self, name@) { unimplemented!() }
+}
+impl ResponseCookies {
+    /// the jar is only ever appended to by this unit (replacing a same-id cookie is modelled as push)
+    #[verifier::external_body]
+    pub fn insert(&mut self, c: ResponseCookie<'static>)
+        ensures cookies_view(final(self)) == cookies_view(old(self)).push(c)
+    { unimplemented!() }
 }
